@@ -102,8 +102,45 @@ static void linkage_line(int i, const char* accessor, const Linkage& l)
                at(l.language().what()).c_str());
 }
 
+// What the constants look like to a client translation unit that uses a Lexicon DURING STATIC INITIALISATION (this TU is linked before the
+// library, so its initialisers run first): identity, name, spelling and type of every accessor are recorded there and compared with
+// what a Lexicon created in main() answers (op `early`).  A constant that is not constant-initialised is raw storage at that time.
+namespace {
+   struct Early {
+      struct Row { std::string what; const void* id; const void* name; std::string spelling; const void* type; };
+      std::vector<Row> rows;
+      static void record(std::vector<Row>& out, impl::Lexicon& lex)
+      {
+#define A(acc) { const Type& t = lex.acc(); out.push_back({ #acc, &t, &t.name(), spelling_of(t.name()), &t.type() }); }
+         TYPE_ACCESSORS(A)
+#undef A
+#define A(acc) { const Symbol& s = lex.acc(); out.push_back({ #acc, &s, &s.name(), spelling_of(s.name()), &s.type() }); }
+         SYMBOL_ACCESSORS(A)
+#undef A
+#define A(acc) { const Linkage& l = lex.acc(); out.push_back({ #acc, &l, &l.language().what(), hex(l.language().what().characters()), nullptr }); }
+         LINKAGE_ACCESSORS(A)
+#undef A
+      }
+      Early() { impl::Lexicon lex; record(rows, lex); }
+   };
+   const Early early;
+}
+
 int main()
 {
+   {
+      impl::Lexicon lex;
+      std::vector<Early::Row> now;
+      Early::record(now, lex);
+      std::size_t bad = 0;
+      for (std::size_t k = 0; k < now.size() and k < early.rows.size(); ++k) {
+         const auto& a = early.rows[k];
+         const auto& b = now[k];
+         const bool same = a.id == b.id and a.name == b.name and a.spelling == b.spelling and a.type == b.type;
+         if (not same) { ++bad; std::printf("early %s differs spelling-then=%s spelling-now=%s\n", a.what.c_str(), a.spelling.c_str(), b.spelling.c_str()); }
+      }
+      std::printf("early-constants checked=%zu differing=%zu\n", now.size(), bad);
+   }
    std::vector<std::unique_ptr<impl::Lexicon>> lexicons;
    std::string line;
    while (std::getline(std::cin, line)) {
